@@ -1,6 +1,7 @@
 import Proofs.C16Fit
 import Proofs.C16Spec
 import Proofs.C16Uniq
+import Proofs.C16Pairs
 /-!
 C16 — MSM estimator equals its function pipeline, round-trips, has a sound spectrum.
 
@@ -17,7 +18,14 @@ open Ens Ens.Counts Ens.Msm
 
 /-- For the configuration *the caller passed* (lag time, sliding-window flag, state count,
 trimming choice, builder), constructing the estimator and fitting it is the hand-written
-composition counting → (trimming) → builder, including every error outcome. -/
+composition counting → (trimming) → builder, including every error outcome.
+
+This theorem is weak by nature: `MSM.fit` and `pipeline` are transcriptions of the same few lines
+written side by side, so the proof is a case split closed by `rfl`.  What it pins down is the model
+(`mkMSM` stores all five arguments, `fit` hands each stored field to the stage that needs it); the
+risk the property is about — the *code* dropping a constructor argument — is carried by the
+differential run of the real estimator against the real function pipeline and against this model
+(harness section `fit`, `sweep`), and by the three-literal example below. -/
 theorem fit_eq_pipeline {C T P : Type} (builders : String → Option (Builder C T P))
     (lag : Int) (f : Builder C T P) (trim sliding : Bool) (maxN : Option Nat)
     (trimF : Trimmer) (assigns : List (List Int)) :
@@ -36,15 +44,29 @@ theorem fit_eq_pipeline_by_name {C T P : Type} (builders : String → Option (Bu
   ⟨fun f hf => fit_pipeline_name builders lag s f hf trim sliding maxN trimF assigns,
    fun h => mk_name_missing builders lag s h trim sliding maxN⟩
 
-/-- the counting stage of the pipeline really receives each argument: the sliding-window flag,
-the lag and the state count all change the fitted counts (DESIGN's witness for F1) -/
+/-- `sliding_window = false`, `max_n_states = 4` and `trim = true` are all forwarded: flipping any one
+of the three literals changes the outcome (sliding: other counts; no state count: state 3 does not
+exist, the trimming stage refuses; no trimming: identity mapping on 4 states).  The first two lines
+are DESIGN's witness for F1. -/
+def runExample (trim sliding : Bool) (maxN : Option Nat) :
+    Except Ens.Msm.Err (List (Int × Int) × List (List Rat)) := do
+  let m ← mkMSM (fun _ => none) 2 (.callable countsOnly) trim sliding maxN
+  let r ← m.fit (trimTo [0, 1, 3]) [[0,1,0,1,1,0,0,1,0,1,2]]
+  pure (r.mapping.toOriginal, r.tcounts)
+
+example :
+    runExample true false (some 4) = .ok ([(0,0),(1,1),(2,3)], [[2,1,0],[1,0,0],[0,0,0]]) ∧
+    runExample true true (some 4) = .ok ([(0,0),(1,1),(2,3)], [[2,2,0],[2,2,0],[0,0,0]]) ∧
+    runExample true false none = .error .stage ∧
+    runExample false false (some 4) = .ok ([(0,0),(1,1),(2,2),(3,3)],
+                                           [[2,1,1,0],[1,0,0,0],[0,0,0,0],[0,0,0,0]]) :=
+  ⟨by decide +kernel, by decide +kernel, by decide +kernel, by decide +kernel⟩
+
+/-- the lag and an inferred state count reach the counting stage as well -/
 example :
     (do let m ← mkMSM (fun _ => none) 2 (.callable countsOnly) false true none
         let r ← m.fit (trimTo []) [[0,1,0,1,1,0,0,1,0,1]]
         pure r.tcounts) = .ok [[2,2],[2,2]] ∧
-    (do let m ← mkMSM (fun _ => none) 2 (.callable countsOnly) false false none
-        let r ← m.fit (trimTo []) [[0,1,0,1,1,0,0,1,0,1]]
-        pure r.tcounts) = .ok [[2,1],[1,0]] ∧
     (do let m ← mkMSM (fun _ => none) 1 (.callable countsOnly) false true (some 3)
         let r ← m.fit (trimTo []) [[0,1,0,1,1,0,0,1,0,1]]
         pure r.tcounts) = .ok [[1,4,0],[3,1,0],[0,0,0]] := by decide
@@ -71,6 +93,16 @@ theorem mapping_identity_when_untrimmed {C T P : Type} (m : MSM (Builder C T P))
   · intro i hi; rw [hr]; exact identity_lookup c.n i hi
 
 example : (TrimMapping.identity 3).toOriginal = [(0,0),(1,1),(2,2)] := by decide
+
+/-- The mappings `fit` produces satisfy the hypothesis of the round-trip theorems: the identity
+mapping of the untrimmed branch, and `zip(keep_states, range(k))` for distinct kept states (what
+`trim_disconnected` builds; `trimTo keep` is that form). -/
+theorem fit_mappings_well_formed :
+    (∀ n : Nat, (TrimMapping.identity n).WellFormed) ∧
+    (∀ keep : List Nat, keep.Nodup →
+      (TrimMapping.ofTransformations ((keep.zip (List.range keep.length)).map
+        fun p => ((p.1 : Int), (p.2 : Int)))).WellFormed) :=
+  ⟨identity_wf, keep_mapping_wf⟩
 
 /-! ## TrimMapping csv round trip -/
 
@@ -114,11 +146,36 @@ theorem trimmapping_roundtrip_counterexample :
 
 /-! ## save / load -/
 
-/-- If the four serialisers return what was written (and the integer printer/parser do), then
-`load (save m)` succeeds and is an equal model in the library's sense: same `config`
-(lag time, sliding window, trim, method), populations, counts, probabilities, and an equal
-mapping.  `max_n_states` is not part of `config`; the loaded estimator has the default. -/
-theorem load_save_config {F C T P σK σC σT σP : Type} (cd : Codecs F C T P σK σC σT σP)
+/-- binary64 numbers and `p`-significant-digit decimals, as sets of rationals -/
+def IsBinary64 (x : ℚ) : Prop := ∃ (m e : Int), |m| < 2 ^ 53 ∧ -1074 ≤ e ∧ e ≤ 971 ∧ x = m * (2 : ℚ) ^ e
+def IsDecimal (p : Nat) (d : ℚ) : Prop := ∃ (m e : Int), |m| < 10 ^ p ∧ d = m * (10 : ℚ) ^ e
+def IsNearest (S : ℚ → Prop) (q y : ℚ) : Prop := S y ∧ ∀ z, S z → |q - y| ≤ |q - z|
+
+/-- printing a binary64 number to the nearest `p`-digit decimal and reading back the nearest
+binary64 number returns it -/
+def DecimalRoundTrip (p : Nat) : Prop :=
+  ∀ x, IsBinary64 x → ∀ d, IsNearest (IsDecimal p) x d → ∀ y, IsNearest IsBinary64 d y → y = x
+
+/-- Full statement, NOT asserted: the serialisers `MSM.save` really uses are exact.  It needs the
+decimal round-trip facts for `mmwrite(precision=20)` (20 significant digits, `tprobs_`, and
+`tcounts_` when they are halves) and `np.savetxt` (`'%.18e'`, 19 significant digits, `eq_probs_`)
+— the classical "17 digits suffice for binary64" theorem (its arithmetic core is
+`2^53 < 10^(p-1)`, checked below) — plus correct rounding of the C library's `printf`/`strtod`,
+and pickle/csv faithfulness for the config and the integer ids.  None of this is proved here. -/
+def C16_load_save_full : Prop := DecimalRoundTrip 20 ∧ DecimalRoundTrip 19
+
+example : (2 : Nat) ^ 53 < 10 ^ (17 - 1) ∧ (2 : Nat) ^ 53 < 10 ^ (19 - 1) ∧ (2 : Nat) ^ 53 < 10 ^ (20 - 1) := by
+  decide
+
+/-- Partial (parametric) form of the save/load round trip: IF the four serialisers return what was
+written (`Codec.Exact` — this is where the property's numerical risk lives, see
+`C16_load_save_full`; the correspondence check observes it bit-exactly on every case) and the
+integer printer/parser do, then `load (save m)` succeeds and is an equal model in the library's
+sense: same `config` (lag time, sliding window, trim, method), populations, counts, probabilities,
+and an equal mapping.  `max_n_states` is not part of `config`; the loaded estimator has the
+default.  What the theorem itself establishes is the bookkeeping: which fields are written, that
+`load` rebuilds the estimator from exactly the saved config, and the csv round trip of the mapping. -/
+theorem load_save_config_partial {F C T P σK σC σT σP : Type} (cd : Codecs F C T P σK σC σT σP)
     (hK : cd.config.Exact) (hC : cd.tcounts.Exact) (hT : cd.tprobs.Exact) (hP : cd.eqProbs.Exact)
     (hpp : ∀ i, cd.parse (cd.print i) = some i)
     (m : Fitted F C T P) (wf : m.fit.mapping.WellFormed)
@@ -350,6 +407,87 @@ example : (∀ i j, 0 < (!![1/2, 1/2; 1/4, 3/4] : Matrix (Fin 2) (Fin 2) ℝ) i 
   constructor
   · intro i j; fin_cases i <;> fin_cases j <;> norm_num
   · intro i; fin_cases i <;> norm_num [Fin.sum_univ_two]
+
+/-! ## eigenpairs stay together -/
+
+/-- Position by position, the returned value and the returned vector are (real parts of) ONE input
+eigenpair `(vals[i], vecs[:, i])` with `i = order[j]`, `order = argsort(-real(vals))`; the vector in
+position 0 is first divided by its non-zero sum.  (A model or code that sorted `vals` but left
+`vecs` unpermuted would violate this.) -/
+theorem eig_post_pairs (k : Nat) (vals : List Cx) (cols : List (List Cx))
+    (hlen : cols.length = vals.length)
+    (v : List Rat) (c : List (List Rat)) (h : eigPost k vals cols = .ok (v, c)) :
+    v.length = min k vals.length ∧ c.length = v.length ∧
+    ∀ j, j < v.length → ∃ i z col, (argsortDesc vals)[j]? = some i ∧ vals[i]? = some z ∧
+      cols[i]? = some col ∧ v[j]? = some z.re ∧
+      (j = 0 → cxSum col ≠ Cx.zero ∧ c[j]? = some (col.map fun w => (w.div (cxSum col)).re)) ∧
+      (j ≠ 0 → c[j]? = some (col.map (·.re))) :=
+  eigPost_pairs k vals cols hlen v c h
+
+/-- Hence: if every input pair `(vals[i], cols[i])` is a left eigenpair of the row-stochastic `T`
+(non-zero complex vector) and the eigenvalue 1 is among the values, the returned leading pair is
+`(1, w)` with `w T = w` and `Σ w = 1` — a stationary vector of `T` (unique for irreducible `T` by
+`stationary_unique`). -/
+theorem eig_post_leading_pair {n : Nat} (T : Matrix (Fin n) (Fin n) ℝ)
+    (hnn : ∀ i j, 0 ≤ T i j) (hrow : ∀ i, ∑ j, T i j = 1) (k : Nat) (hk : 1 ≤ k)
+    (vals : List Cx) (cols : List (List Cx)) (hlen : cols.length = vals.length)
+    (v : List Rat) (c : List (List Rat)) (h : eigPost k vals cols = .ok (v, c))
+    (heig : ∀ (i : Nat) (z : Cx) (col : List Cx), vals[i]? = some z → cols[i]? = some col →
+      ∃ hl : col.length = n, colVec col hl ≠ 0 ∧
+        Matrix.vecMul (colVec col hl) (T.map (fun x => (x : ℂ))) = toC z • colVec col hl)
+    (hone : (⟨1, 0⟩ : Cx) ∈ vals) :
+    v[0]? = some 1 ∧ ∃ wl : List Rat, c[0]? = some wl ∧ ∃ hw : wl.length = n,
+      Matrix.vecMul (ratVec wl hw) T = ratVec wl hw ∧ ∑ a, ratVec wl hw a = 1 := by
+  have heig' : ∀ z ∈ vals, ∃ u : Fin n → ℂ, u ≠ 0 ∧
+      Matrix.vecMul u (T.map (fun x => (x : ℂ))) = toC z • u := by
+    intro z hz
+    obtain ⟨i, hi, rfl⟩ := List.mem_iff_getElem.mp hz
+    have hic : i < cols.length := by rw [hlen]; exact hi
+    obtain ⟨hl, hne, hE⟩ := heig i vals[i] cols[i] (List.getElem?_eq_getElem hi)
+      (List.getElem?_eq_getElem hic)
+    exact ⟨_, hne, hE⟩
+  have h1 := eig_post_leading_is_one T hnn hrow k hk vals cols v c h heig' hone
+  obtain ⟨hvl, _, hp⟩ := eig_post_pairs k vals cols hlen v c h
+  have hpos : 0 < v.length := by
+    rw [hvl]
+    have : 0 < vals.length := List.length_pos_of_mem hone
+    omega
+  obtain ⟨i, z, col, _, hz, hcol, hv0, hc0, _⟩ := hp 0 hpos
+  obtain ⟨hs, hc0⟩ := hc0 rfl
+  have hv1 : v[0]? = some 1 := by rw [← List.head?_eq_getElem?]; exact h1
+  have hre : z.re = 1 := by rw [hv0] at hv1; exact Option.some.inj hv1
+  obtain ⟨hl, hne, hE⟩ := heig i z col hz hcol
+  obtain ⟨hw, hfix, hsum⟩ := leading_pair T hnn hrow z col hre hs hl hne hE
+  exact ⟨hv1, _, hc0, hw, hfix, hsum⟩
+
+/-! ## guards and defaults -/
+
+/-- `n_eigs`: not given → all `n`; given and `< 2` → `ValueError`; otherwise that many -/
+theorem resolve_n_eigs_guard (n : Nat) :
+    resolveNEigs n none = .ok n ∧
+    (∀ k : Int, k < 2 → resolveNEigs n (some k) = .error .valueError) ∧
+    (∀ k : Int, 2 ≤ k → resolveNEigs n (some k) = .ok k.toNat) :=
+  ⟨resolveNEigs_none n, resolveNEigs_lt_two n, resolveNEigs_ge_two n⟩
+
+/-- `implied_timescales`: the default is `⌊n/10⌋ + 1` timescales, and never more than `n − 1` -/
+theorem imp_n_times_clamp (n : Nat) :
+    impNTimes n none = min (n / 10 + 1) (n - 1) ∧
+    (∀ k, impNTimes n (some k) = min k (n - 1)) ∧ (∀ o, impNTimes n o ≤ n - 1) := by
+  refine ⟨impNTimes_none n, impNTimes_some n, ?_⟩
+  intro o
+  cases o with
+  | none => rw [impNTimes_none]; omega
+  | some k => rw [impNTimes_some]; omega
+
+/-- `left=True` decomposes the transpose, `left=False` the matrix itself; the `n_eigs` guard comes
+first in both cases -/
+theorem eigenspectrum_left_transposes {M : Type} (eig : M → List Cx × List (List Cx)) (tr : M → M)
+    (size : M → Nat) (T : M) (nEigs : Option Int) :
+    eigenspectrum eig tr size T nEigs true =
+      (resolveNEigs (size T) nEigs >>= fun k => eigPost k (eig (tr T)).1 (eig (tr T)).2) ∧
+    eigenspectrum eig tr size T nEigs false =
+      (resolveNEigs (size T) nEigs >>= fun k => eigPost k (eig T).1 (eig T).2) :=
+  ⟨eigenspectrum_left eig tr size T nEigs, eigenspectrum_right eig tr size T nEigs⟩
 
 /-! ## implied timescales -/
 
